@@ -708,6 +708,10 @@ func sequence(r *ev.Run, c *ev.Case, seqNo int) {
 			ok("signers", k.Name)
 		case 9, 10: // add-hard-cert, both formats
 			k := gen.PickKey(rng)
+			if rng.Intn(6) == 0 {
+				// a certificate over a security-key backed key (sk-ssh-ed25519-cert-v01@openssh.com)
+				k = gen.SKPool()[rng.Intn(2)]
+			}
 			var pk ssh.PublicKey = gen.MakeCert(gen.CertSpec{Key: k, KeyID: gen.Str(rng, 30), ValidAfter: now - 10, ValidBefore: now + 10})
 			if rng.Intn(4) == 0 {
 				pk = k.Pub
@@ -1147,7 +1151,9 @@ func rigB(r *ev.Run) {
 			out  []byte
 			rc   int
 			want bool
-		}{{pemBytes, 0, true}, {pemBytes, 1, false}, {nil, 0, false}, {[]byte("garbage"), 0, false}, {pemBytes[:len(pemBytes)/2], 0, false}, {append([]byte("text before\n"), pemBytes...), 0, true}} {
+		}{{pemBytes, 0, true}, {pemBytes, 1, false}, {nil, 0, false}, {[]byte("garbage"), 0, false}, {pemBytes[:len(pemBytes)/2], 0, false}, {append([]byte("text before\n"), pemBytes...), 0, true},
+			// a tool that exits 0 and prints nothing but white space, or the armour without a body
+			{[]byte("\n"), 0, false}, {[]byte(" \t\r\n\n"), 0, false}, {[]byte("-----BEGIN CERTIFICATE-----\n-----END CERTIFICATE-----\n"), 0, false}, {append(append([]byte{}, pemBytes...), []byte("\n\n \n")...), 0, true}} {
 			os.WriteFile(filepath.Join(dir, "out"), v.out, 0o644)
 			os.WriteFile(filepath.Join(dir, "rc"), []byte(fmt.Sprint(v.rc)), 0o644)
 			for _, op := range []string{"read", "attest"} {
